@@ -138,6 +138,24 @@ mod imp {
         let r8 = fmt_r(serde_json::from_str::<std::collections::BTreeMap<String, LanguageIdentifier>>(&format!("{{\"k\":{}}}", plain)).map(|mut m| m.remove("k").unwrap()));
         let r9 = fmt_r(serde_json::from_str::<std::collections::BTreeMap<LanguageIdentifier, u8>>(&format!("{{{}:1}}", plain)).map(|m| m.into_iter().next().unwrap().0));
         if r1 != r6 || r1 != r7 || r1 != r8 || r1 != r9 { return format!("INCONSISTENT plain={} vec={} option={} map-value={} map-key={}", r1, r6, r7, r8, r9); }
+        // deserialising INTO an existing value (the doc-hidden but public `deserialize_in_place`, which Vec<T> and
+        // serde_derive's in-place mode use) must give what deserialising a fresh value gives - nothing of the old value stays
+        {
+            use serde::Deserialize;
+            for old_text in ["ca-Latn-ES-valencia-1996", "und", "zh-Hant-TW"] {
+                let mut existing: LanguageIdentifier = old_text.parse().unwrap();
+                let mut de = serde_json::Deserializer::from_str(&plain);
+                let ok = LanguageIdentifier::deserialize_in_place(&mut de, &mut existing).is_ok();
+                let got = if ok { fmt_r(Ok(existing.clone())) } else { "ERR".to_string() };
+                if got != r1 { return format!("INCONSISTENT deserialize_in_place into {} gives {} but deserialize gives {}", old_text, got, r1); }
+                let mut v: Vec<LanguageIdentifier> = vec![old_text.parse().unwrap()];
+                let listed = format!("[{}]", plain);
+                let mut de = serde_json::Deserializer::from_str(&listed);
+                let okv = <Vec<LanguageIdentifier>>::deserialize_in_place(&mut de, &mut v).is_ok();
+                let gotv = if okv && v.len() == 1 { fmt_r(Ok(v[0].clone())) } else { "ERR".to_string() };
+                if gotv != r1 { return format!("INCONSISTENT Vec::deserialize_in_place over [{}] gives {} but deserialize gives {}", old_text, gotv, r1); }
+            }
+        }
         r1
     }
     pub fn serde_roundtrip(v: &[u8]) -> String {
